@@ -207,6 +207,11 @@ class GroupBy:
                 group_keys.group_ikey,
                 group_keys.result_index,
             )
+            # the rest of the state the methods rely on
+            self._key_index = group_keys._key_index
+            self._sort = group_keys._sort
+            self._index_is_sorted = group_keys._index_is_sorted
+            self._group_key_pointers = group_keys._group_key_pointers
             return
 
         group_key_list, group_key_names = convert_data_to_arr_list_and_keys(group_keys)
